@@ -546,6 +546,7 @@ func (p *printer) expr(t *T, min int) {
 			setPos(t, fmt.Sprintf("RBracket%d", i), p.tok("]"))
 		}
 	case KAttr:
+		setPos(t, "Start", start)
 		p.expr(t.Kids[0], precPostfix)
 		p.gap(gTight)
 		p.tok(".")
